@@ -76,8 +76,31 @@ func c10(r *h.Result, rng *h.Rng, tier string, replay string) error {
 	if tier == "thorough" {
 		n = 100000
 	}
-	r.Rule = "escape: byte strings ≤24 bytes, 1/4 uniform bytes, 1/2 SQL/LIKE/JSON metacharacters, 1/4 letters, after a fixed adversarial corpus; non-trivial = contains a byte the escape table rewrites; distinct by input"
+	r.Rule = "escape: byte strings ≤24 bytes, 1/4 uniform bytes, 1/2 SQL/LIKE/JSON metacharacters, 1/4 letters, after a fixed adversarial corpus; non-trivial = contains a byte the escape table rewrites; distinct by input. " +
+		"taint: every position of c10_positions.go × router configuration (versions / old layout / cluster) × 3 (quick) or 20 (thorough) markers Head++hostile++Tail — first marker always '\\, then 1–6 fragments (70% from a dictionary of quotes, backslashes, NUL, newlines, comment openers, LIKE wildcards, invalid UTF-8, query-language punctuation; else random bytes / letters), narrowed per level to what the transport or grammar carries; each reaching marker is paired with the harmless marker Head++abc++Tail; all cases non-trivial; distinct by position, configuration, level, marker. " +
+		"inventory: one case per Gen.Params entry. leaves: the positions that carry query-language text × 2 (single node / cluster) × the same marker counts, plus the non-language string arguments (label, tag, group_by, label_names)"
 	if err := c10Escape(r, rng.Fork(), n); err != nil {
+		return err
+	}
+	// the position inventory as the Lean side has it (Gen.Params)
+	ans, err := h.Model([]string{"c10params"})
+	if err != nil {
+		return err
+	}
+	var inventory []string
+	if ans[0] != "" {
+		inventory = strings.Split(ans[0], ";")
+	}
+	per := 3
+	if tier != "quick" {
+		per = 20
+	}
+	restore := c10Silence() // the services print every query
+	defer restore()
+	if err := c10Taint(r, rng.Fork(), per, inventory); err != nil {
+		return err
+	}
+	if err := c10Leaves(r, rng.Fork(), per); err != nil {
 		return err
 	}
 	return nil
